@@ -241,7 +241,7 @@ SPECS["C13"] = dict(
     instrument=[["-map", VATOMIC, "pkg/queue/lock_free_queue.go", "pkg/queue/queue.go"]],
     jobs=[
         dict(name="c13", pkg="./verifx/c13", tests=[
-            dict(id="scheduled", run="^TestC13Scheduled$", quick=dict(shards=12, checks=1500, timeout=300), thorough=dict(shards=16, checks=60000, timeout=2400, shrinktime=120)),
+            dict(id="scheduled", run="^TestC13Scheduled$", quick=dict(shards=12, checks=12000, timeout=300), thorough=dict(shards=16, checks=500000, timeout=2400, shrinktime=120)),
             dict(id="exhaustive", run="^TestC13Exhaustive$", rapid=False, quick=dict(shards=4, timeout=300), thorough=dict(shards=16, timeout=2400)),
         ]),
         dict(name="c13-race", pkg="./verifx/c13", race=True, tests=[
@@ -267,8 +267,8 @@ SPECS["C03"] = dict(
     instrument=POLLER_INSTR,
     jobs=[
         dict(name="c03a-" + tagname(tg), pkg="./verifx/c03", tags=tg, tests=[
-            dict(id="scheduled", run="^TestC03WakeScheduled$", quick=dict(shards=6, checks=1200, timeout=400), thorough=dict(shards=8, checks=40000, timeout=3000, shrinktime=120)),
-            dict(id="exhaustive", run="^TestC03WakeExhaustive$", rapid=False, quick=dict(shards=2, timeout=400), thorough=dict(shards=8, timeout=3000)),
+            dict(id="scheduled", run="^TestC03WakeScheduled$", quick=dict(shards=6, checks=6000, timeout=400), thorough=dict(shards=8, checks=300000, timeout=3000, shrinktime=120)),
+            dict(id="exhaustive", run="^TestC03WakeExhaustive$", rapid=False, quick=dict(shards=4, timeout=400), thorough=dict(shards=8, timeout=3000)),
         ]) for tg in ["", "poll_opt"]
     ] + [dict(name="c03b-" + tagname(tg), pkg="./verifx/c03", tags=tg, tests=[
             dict(id="engine", run="^TestC03AsyncEngine$", quick=dict(shards=3, checks=120, timeout=600, shrinktime=30), thorough=dict(shards=4, checks=5000, timeout=3000, shrinktime=300)),
